@@ -41,6 +41,9 @@ type segment struct {
 	slice    []int64 // either 0-length or 2-length
 	field    string
 	index    int
+	// isField flags an explicit field segment, so that the empty field name [""]
+	// is not mistaken for index 0.
+	isField bool
 }
 
 // String returns the segment's string representation.
@@ -133,7 +136,7 @@ func resolve(sel Selector, subject ipld.Node, at []string) (ipld.Node, error) {
 				return nil, newResolutionError(fmt.Sprintf("can not iterate over kind: %s", kindString(cur)), at)
 			}
 
-		case seg.Field() != "":
+		case seg.Field() != "" || seg.isField:
 			at = append(at, seg.Field())
 			switch {
 			case cur == nil:
